@@ -147,6 +147,9 @@ UNUSUAL = [
     "T({t!r}, (lambda: (lambda: a + b)())())",
     "T({t!r}, ~a & b | c ^ 3 << 1 >> 1)",
     "T({t!r}, 2 ** -1 + 7 // 2 + 7 % -3 + a / 4)",
+    "T({t!r}, 'na\u00efve \u2603 ' + str(a) + 'gr\u00f6\u00dfer')",
+    "gr\u00f6\u00dfe{n} = a + 1\nT({t!r}, gr\u00f6\u00dfe{n})",
+    "T({t!r}, len('\U0001f600\u4e2d\u6587') + a)",
 ]
 
 
